@@ -158,6 +158,7 @@ SHIPPED = {
 # defaults to 1 s) whose result is kept in the KINETICS entity; "USE solution none" is the manual's way to have none,
 # so that the reactants enter the first shift with their initial amounts.
 NO_BATCH = "USE solution none\n"
+TRN_FLOW = {"trn": "forward", "trnb": "back", "trnd": "diffusion_only"}      # TRANSPORT contexts (2 cells, kinetics in both)
 
 
 def expected_times(ctx, div, total):
@@ -207,11 +208,12 @@ def build_input(case, div, incr, integ, bsm):
         sol0 = sol_block.replace("SOLUTION 1", "SOLUTION 0-1")
         return (head + rates + sol0 + NO_BATCH + "KINETICS 1\n" + kin + itxt + up +
                 "ADVECTION\n -cells 1\n -shifts %d\n -time_step %s\n -punch_cells 1\n -punch_frequency 1\n -print_frequency 1000\nEND\n" % (n, dt)), names
-    if ctx == "trn":
+    if ctx in TRN_FLOW:
         sol0 = sol_block.replace("SOLUTION 1", "SOLUTION 0-3")
         return (head + rates + sol0 + NO_BATCH + "KINETICS 1-2\n" + kin + itxt + up +
-                "TRANSPORT\n -cells 2\n -shifts %d\n -time_step %s\n -lengths 1\n -dispersivities 0.05\n -flow_direction forward\n"
-                " -boundary_conditions flux flux\n -punch_cells 1-2\n -punch_frequency 1\n -print_frequency 1000\nEND\n" % (n, dt)), names
+                "TRANSPORT\n -cells 2\n -shifts %d\n -time_step %s\n -lengths 1\n -dispersivities 0.05\n -flow_direction %s\n"
+                " -boundary_conditions %s\n -punch_cells 1-2\n -punch_frequency 1\n -print_frequency 1000\nEND\n" % (
+                    n, dt, TRN_FLOW[ctx], "closed closed" if ctx == "trnd" else "flux flux")), names
     raise KeyError(ctx)
 
 
@@ -239,7 +241,7 @@ def run_one(case, div, incr, integ, bsm):
         raise RuntimeError("selected output lacks the punched columns: %r" % (r["heads"],))
     total = SHIPPED[case["fam"]][2] if case["fam"] in SHIPPED else T
     times = expected_times(case["ctx"], div, total)
-    want_state = {"batch": "react", "adv": "advect", "trn": "transp"}[case["ctx"]]
+    want_state = {"batch": "react", "adv": "advect", "trn": "transp", "trnb": "transp", "trnd": "transp"}[case["ctx"]]
     for row in rows:
         sol = {"Na": row["na"], "Cl": row["cl"], "K": row["k"]}
         if row["state"] == "i_soln":
@@ -252,7 +254,7 @@ def run_one(case, div, incr, integ, bsm):
             raise RuntimeError("more reported steps than requested: %r" % (row,))
         out["rows"].append({"t": times[row["step"] - 1], "step": row["step"], "time": row["time"], "tt": row["tt"], "st": row["st"], "kt": row["kt"],
                             "cell": row["soln"], "m": {n: row["m_%d" % i] for i, n in enumerate(names)}, "sol": sol})
-    ncell = 2 if case["ctx"] == "trn" else 1
+    ncell = 2 if case["ctx"] in TRN_FLOW else 1
     if len(out["rows"]) != len(times) * ncell or out["init"] is None:
         raise RuntimeError("expected %d result rows, got %d (vacuity guard): %s" % (len(times) * ncell, len(out["rows"]), text))
     return out
@@ -486,8 +488,8 @@ def cases(tier):
                        lattice(["tdep"], ["batch"], ["rk1", "rk3", "cv5s100"], [500], [1.0], [0.01], [1e-6])))
         bounds.append(("closed forms, batch: 5 families x kT {0.01,1,10} x tol {1e-6,1e-8,1e-10} x 9 integrators (rk 1/2/3/6, cvode order 5 and 2, rk3 and rk1 with -step_divide 4 / 25 / 0.01; m0 1, bad_step_max 500) x 4 divisions x 2 incremental",
                        lattice(AUTONOMOUS, ["batch"], QUICK_INTEGRATORS, [500], [1.0])))
-        bounds.append(("closed forms inside ADVECTION and TRANSPORT time steps: {zero, first} x 3 kT x 3 tol x {rk3, rk6, cvode 5} x shift counts {1,2,7} x 2 incremental",
-                       lattice(["zero", "first"], ["adv", "trn"], ["rk3", "rk6", "cv5s100"], [500], [1.0])))
+        bounds.append(("closed forms inside ADVECTION and TRANSPORT (forward, backward, diffusion only) time steps: {zero, first} x 3 kT x 3 tol x {rk3, rk6, cvode 5} x shift counts {1,2,7} x 2 incremental",
+                       lattice(["zero", "first"], ["adv", "trn", "trnb", "trnd"], ["rk3", "rk6", "cv5s100"], [500], [1.0])))
         bounds.append(("shipped rates Calcite, Pyrite: tol 1e-8 x 9 integrators x 4 divisions x 2 incremental (invariances only)",
                        shipped(["Calcite", "Pyrite"], QUICK_INTEGRATORS, [1e-8])))
     else:
@@ -495,8 +497,8 @@ def cases(tier):
                        lattice(["tdep"], ["batch"], ["rk1", "rk2", "rk3", "rk6", "cv5s100"], [500], [1.0], [0.01, 1.0], [1e-6, 1e-8])))
         bounds.append(("closed forms, batch: 5 families x 3 kT x 3 tol x 13 integrators (+ cvode_steps 1000) x bad_step_max {500,10} x m0 {1, 0.001} x 4 divisions x 2 incremental",
                        lattice(AUTONOMOUS, ["batch"], INTEGRATORS, [500, 10], [1.0, 1e-3])))
-        bounds.append(("closed forms inside ADVECTION and TRANSPORT time steps: {zero, first, two, chain} x 3 kT x 3 tol x 13 integrators x shift counts {1,2,7} x 2 incremental",
-                       lattice(["zero", "first", "two", "chain"], ["adv", "trn"], INTEGRATORS, [500], [1.0])))
+        bounds.append(("closed forms inside ADVECTION and TRANSPORT (forward, backward, diffusion only) time steps: {zero, first, two, chain} x 3 kT x 3 tol x 13 integrators x shift counts {1,2,7} x 2 incremental",
+                       lattice(["zero", "first", "two", "chain"], ["adv", "trn", "trnb", "trnd"], INTEGRATORS, [500], [1.0])))
         bounds.append(("shipped rates Calcite, Pyrite, Organic_C, K-feldspar: 3 tol x 13 integrators x 4 divisions x 2 incremental (invariances only)",
                        shipped(["Calcite", "Pyrite", "Organic_C", "K-feldspar"], INTEGRATORS, [1e-6, 1e-8, 1e-10])))
     return bounds
@@ -544,7 +546,7 @@ def run(tier):
     ev.extra["engine_runs_not_completed"] = n_nc
     ev.extra["alphabet"] = {"families": AUTONOMOUS + ["tdep (diagnostic only)"] + sorted(SHIPPED), "kT": [0.01, 1, 10], "tol": [1e-6, 1e-8, 1e-10],
                             "integrators": QUICK_INTEGRATORS if tier == "quick" else INTEGRATORS, "divisions_batch": BATCH_DIVS, "shift_counts": SHIFT_DIVS,
-                            "incremental": [False, True], "contexts": ["batch", "adv", "trn"], "bad_step_max": [500] if tier == "quick" else [500, 10],
+                            "incremental": [False, True], "contexts": ["batch", "adv", "trn (forward)", "trnb (backward)", "trnd (diffusion only)"], "bad_step_max": [500] if tier == "quick" else [500, 10],
                             "m0": [1.0] if tier == "quick" else [1.0, 1e-3]}
     ev.extra["relations"] = ["negative-amount", "exact-solution-miss (per KINETICS calculation, 100 x tol)", "transfer-mismatch (batch, ADVECTION; 1e-6 of the inventory)",
                              "step-division-dependence (final time, 100 x tol)", "incremental-dependence (every reported time, 100 x tol)",
